@@ -60,10 +60,13 @@ const (
 	vmgrSiteRRAdd
 	vmgrSiteRndSize
 	vmgrSiteLBIdx
+	// an atomic operation on the status word in Pick that is neither the load nor one of the two CAS of the code the
+	// model was written against (placed by tools/mgrpoints when Pick has been edited; never on the unchanged code)
+	vmgrSiteStW
 )
 
 var vmgrSiteNames = []string{"?", "load", "cas", "cas2", "rload", "rclose", "ropen", "rgo", "rstore", "rrebal",
-	"mclose", "mclear", "rradd", "rndsize", "lbidx"}
+	"mclose", "mclear", "rradd", "rndsize", "lbidx", "stw"}
 
 // VmgrHook is called at every schedule point when set (only during a scheduled phase).
 var VmgrHook func(site int)
@@ -518,8 +521,38 @@ func (w *vmgrWorld) exec(toks []string, rng *rand.Rand) (opOut string, rep strin
 		}
 		var wg sync.WaitGroup
 		gate := make(chan struct{})
+		// every second phase (odd seed) releases some of its pickers from a SPINNING barrier: they busy-wait on one flag
+		// and call Pick directly, so that several of them are between two instructions of Pick at the same time (a
+		// channel barrier wakes its waiters one after the other, each with a goroutine switch in between)
+		nspin := 0
+		if seed%2 == 1 {
+			nspin = runtime.GOMAXPROCS(0) / 2
+			if nspin < 2 {
+				nspin = 2
+			}
+			if nspin > k {
+				nspin = k
+			}
+		}
+		var flag, ready int32
+		mgr := w.m
 		for i := 0; i < k; i++ {
 			wg.Add(1)
+			if i < nspin {
+				go func(i int) {
+					defer wg.Done()
+					defer func() {
+						if e := recover(); e != nil {
+							res[i], msgs[i] = nil, fmt.Sprint(e)
+						}
+					}()
+					atomic.AddInt32(&ready, 1)
+					for atomic.LoadInt32(&flag) == 0 {
+					}
+					res[i] = mgr.Pick()
+				}(i)
+				continue
+			}
 			go func(i int) {
 				defer wg.Done()
 				<-gate
@@ -531,6 +564,10 @@ func (w *vmgrWorld) exec(toks []string, rng *rand.Rand) (opOut string, rep strin
 				res[i], msgs[i] = w.safePick()
 			}(i)
 		}
+		for dl := time.Now().Add(vmgrPatience); atomic.LoadInt32(&ready) < int32(nspin) && time.Now().Before(dl); {
+			runtime.Gosched()
+		}
+		atomic.StoreInt32(&flag, 1)
 		close(gate)
 		fin := make(chan struct{})
 		go func() { wg.Wait(); close(fin) }()
@@ -538,6 +575,7 @@ func (w *vmgrWorld) exec(toks []string, rng *rand.Rand) (opOut string, rep strin
 		case <-fin:
 		case <-time.After(4 * vmgrPatience):
 			w.dead = true
+			atomic.StoreInt32(&mgr.status, managerInitialized) // lets pickers that spin on the status word go
 			return fmt.Sprintf("cphase %d %d", k, seed), "hang"
 		}
 		for _, m := range msgs {
